@@ -635,6 +635,21 @@ impl Default for Kernel {
     }
 }
 
+/// Verification hooks, compiled only with `--cfg turmoil_verif`.
+#[allow(unexpected_cfgs)]
+mod verif_hooks {
+    #[cfg(turmoil_verif)]
+    impl super::Kernel {
+        pub(crate) fn verif_counts(&self) -> (usize, usize, usize) {
+            self.sockets.verif_counts()
+        }
+
+        pub(crate) fn verif_set_ephemeral_range(&mut self, range: std::ops::RangeInclusive<u16>) {
+            self.sockets.verif_set_ephemeral_range(range);
+        }
+    }
+}
+
 #[cfg(test)]
 mod tests {
     use std::io::ErrorKind;
